@@ -96,6 +96,16 @@ def _send(self, request, stream=False, timeout=None, verify=True, cert=None, pro
     payload = out.get("json", "{}")
     if isinstance(payload, str):
         payload = payload.encode("utf-8")
+    if getattr(sim, "unknown_reply_field", False) and payload[:1] == b"{":
+        # fault (version skew): a newer server adds a field the installed message definitions do not have
+        try:
+            obj = json.loads(payload)
+            if isinstance(obj, dict) and "zzAddedInV2" not in obj:
+                obj["zzAddedInV2"] = {"note": "unknown to this client", "n": 1}
+                payload = json.dumps(obj).encode("utf-8")
+                sim.ev("unknown_field_injected", op=out.get("op"), n=out.get("n"))
+        except ValueError:
+            pass
     if out.get("lost_body"):
         payload = b""           # fault: a success status whose entity body never arrived (zero bytes)
     resp.status_code = 200
